@@ -184,6 +184,8 @@ class Impl:
                 for e in sc.elements:
                     sli = e.source_location_info
                     tail = (cpath(sli.file_path_rel_referrer), [cloc(l) for l in sli.file_inclusion_chain])
+                    desc = e.instruction_info.description if e.instruction_info is not None else None
+                    tail = tail + (desc,)
                     es.append((self.kind[e.element_type], cseq(sli.source_location_path.location.source)) + tail)
                     es2.append((self.kind[e.element_type], cseq(e.source)) + tail)
                 out[name], alt[name] = es, es2
@@ -214,7 +216,7 @@ def c_chain(ch):
 
 
 def c_element(e):
-    return '(Element %s %s %s %s)' % (e[0], c_lineseq(e[1]), ctext(e[2]), c_chain(e[3]))
+    return '(Element %s %s %s %s %s)' % (e[0], c_lineseq(e[1]), ctext(e[2]), c_chain(e[3]), copt(e[4], ctext))
 
 
 def c_sec_opt(name):
@@ -444,21 +446,25 @@ class Gen:
         return ['def string %s = <<EOF' % self.name()] + inner + (['EOF'] if closed else [])
 
     def described(self, ph):
+        """an instruction with a description, in every legal layout: tight, padded inside the delimiters (leading /
+        trailing / both, blanks and tabs), several lines, block form with the delimiters on lines of their own, empty;
+        instruction on the line of the closing delimiter, on the next line, or after comment / empty lines; one-line
+        and multi-line instructions"""
         r = self.rng
-        instr = self.one_line(ph).lstrip() if r.chance(0.7) else None
-        form = r.below(6)
-        body = [instr] if instr is not None else self.multi(ph)
-        if form == 0:
-            return ['`d` ' + body[0]] + body[1:]
-        if form == 1:
-            return ['  `a description`   ' + body[0]] + body[1:]
-        if form == 2:
-            return ['`d`'] + body
-        if form == 3:
-            return ['`first', 'second`', '', '# c', '  ' + body[0]] + body[1:]
-        if form == 4:
-            return ['`desc with', '[act]', 'inside`  ', body[0]] + body[1:]
-        return ['`d`  ', ' ', '#c'] + body
+        body = [self.one_line(ph).lstrip()] if r.chance(0.7) else self.multi(ph)
+        inner = r.choice(['d', 'a description', ' d ', '  d', 'd  ', '\td\t', ' two  words ', '', ' ', 'first\nsecond',
+                          ' first \n second ', '\ntext\n', '\n  text\n  more\n  ', 'with\n[act]\ninside', 'x\n\n# c\ny ',
+                          '\n', ' \u2028d\x0c'])
+        dlines = ('`' + inner + '`').split('\n')
+        dlines[0] = r.choice(['', '', '  ', '\t']) + dlines[0]
+        place = r.below(4)
+        if place == 0:
+            return dlines[:-1] + [dlines[-1] + r.choice([' ', '   ', '\t', '']) + body[0]] + body[1:]
+        if place == 1:
+            return dlines[:-1] + [dlines[-1] + r.choice(['', '  '])] + body
+        if place == 2:
+            return dlines + r.choice([[''], ['# c'], ['', '# c', ' ']]) + [r.choice(['', '  ']) + body[0]] + body[1:]
+        return dlines + body
 
     def symbol_lines(self, sym, ph, inc_tokens):
         """-> (lines, new phase)"""
@@ -959,7 +965,7 @@ def describe(files, links, o, root=ROOT):
          'note': "root 'rel:P' = test case given as relative path P with the directory of the files as cwd; ld -> . ; lr.case -> r.case"}
     if o[0] == 'ok':
         d['observed'] = {s: [{'type': e[0], 'first_line': e[1][0], 'lines': e[1][1], 'file': e[2],
-                              'included_via': [[l[0], l[1][0], l[1][1][0]] for l in e[3]]} for e in es]
+                              'included_via': [[l[0], l[1][0], l[1][1][0]] for l in e[3]], 'description': e[4]} for e in es]
                          for s, es in o[1].items()}
     else:
         d['observed_error'] = list(o)
@@ -969,7 +975,7 @@ def describe(files, links, o, root=ROOT):
 def run(ctx, res, scale=1):
     rng = ctx.rng
     quick = ctx.quick
-    n_random = (2500 if quick else 25000) * scale
+    n_random = (2000 if quick else 25000) * scale
     ex_len = 2 if quick else 3
     n_perm = (250 if quick else 1500) * scale
     n_ps = (3000 if quick else 30000) * scale
